@@ -258,7 +258,7 @@ def directed(pid, tier="quick"):
         S += [shared_spend_discard(0), shared_spend_discard(1)]
     if pid in ("C20", "C03"):
         S += [multi_fork_discard()]
-    if pid == "C03":
+    if pid in ("C03", "C07"):
         S += [depth_bound_tips("regtest", 2), depth_bound_tips("testnet", 144, 90, 14)]
     if pid == "C03" and tier == "thorough":
         # several hundred blocks each: the real adaptive depth bound and the three-way tie
@@ -599,6 +599,8 @@ def depth_bound_chain(net="testnet", thr=144, competing=0):
         cmds.append({"c": "push", "b": b})
         cmds.append({"c": "ingest"})
         cmds.append(q("info"))
+    cmds += [q("headers", s=0, e=-1), q("headers", s=150, e=-1), q("headers", s=150, e=249), q("headers", s=150, e=250),
+             q("headers", s=380, e=-1), q("headers", s=421, e=-1)]
     sc = w.scenario(f"depth-bound-{net}-{thr}-{competing}", {"thr": thr, "seed": 31, "book": False}, cmds)
     sc["blocks"].insert(0, {"id": 1, "parent": 0, "diff": 1000000, "time": 0, "txs": [1]})
     return sc
@@ -614,7 +616,9 @@ def depth_bound_tips(net="regtest", thr=2, chain_len=110, tips=10):
     cmds = [{"c": "tick", "dt": 100000}, {"c": "bulk_push", "bs": main[:-1]}, {"c": "ingest"}, q("info")]
     for b in [main[-1]] + sibs:
         cmds += [{"c": "push", "b": b}, {"c": "ingest"}]
-    cmds += [q("info"), q("headers", s=0, e=2)]
+    # more than 100 unstable blocks: the answer is capped at start + 99 (C07)
+    cmds += [q("info"), q("headers", s=0, e=2), q("headers", s=0, e=-1), q("headers", s=5, e=-1), q("headers", s=10, e=200),
+             q("headers", s=9, e=108), q("headers", s=9, e=109), q("headers", s=chain_len - 1, e=-1), q("headers", s=chain_len + 1, e=-1)]
     sc = w.scenario(f"depth-bound-tips-{net}-{thr}", {"thr": thr, "seed": 33, "book": False}, cmds)
     sc["blocks"].insert(0, {"id": 1, "parent": 0, "diff": 1000000, "time": 0, "txs": [1]})
     return sc
